@@ -201,10 +201,33 @@ fn poison(t: &mut Tape, pid: i32, log: &mut Vec<String>) {
     let Ok(regs) = raw::getregs(pid) else { return };
     // the frame of `arena` sits above `stop_here`'s small frame
     let lo = regs.rsp;
-    let len = 256 + 256 * t.choose(6) as u64;
+    let len = 512 + 512 * t.choose(8) as u64;
     let Some(frame) = ns::read_mem(pid, lo, len as usize) else { return };
-    let kind = t.choose(6);
+    let kind = t.choose(9);
     let mut out = frame.clone();
+    if kind >= 6 {
+        // field-level corruption: words that look like lengths / capacities / small counters
+        // are zeroed, maximised or bumped one by one (everything else stays well formed)
+        let mut n = 0;
+        for w in out.chunks_mut(8) {
+            if w.len() < 8 {
+                continue;
+            }
+            let v = u64::from_le_bytes(w.try_into().unwrap());
+            if (1..=64).contains(&v) && t.chance(1, 4) {
+                let nv: u64 = match kind {
+                    6 => 0,
+                    7 => u64::MAX,
+                    _ => v + 1 + t.choose(3) as u64,
+                };
+                w.copy_from_slice(&nv.to_le_bytes());
+                n += 1;
+            }
+        }
+        write_mem(pid, lo, &out);
+        log.push(format!("    fault: {n} length-like words of the frame changed (pattern {kind})"));
+        return;
+    }
     let heap: Vec<u64> = frame.chunks(8).filter_map(|c| c.try_into().ok().map(u64::from_le_bytes)).filter(|v| *v > 0x5555_0000_0000 && *v < 0x5556_0000_0000).collect();
     for (k, w) in out.chunks_mut(8).enumerate() {
         if w.len() < 8 || !t.chance(1, 3) {
@@ -345,6 +368,13 @@ pub fn run(spec: &WorkerSpec) -> WorkerResult {
         }
         if Some(k) == kill_at {
             unsafe { libc::kill(pid, libc::SIGKILL) };
+            // the kill takes effect asynchronously: wait until the process is really gone (a
+            // zombie waiting for its tracer), so that what the next commands see does not
+            // depend on timing
+            let t0 = std::time::Instant::now();
+            while !matches!(ns::task_state(pid, pid), 'Z' | 'X') && t0.elapsed().as_secs() < 10 {
+                std::thread::yield_now();
+            }
             killed = true;
             bump(&mut stats, "c08.fault_debuggee_killed");
             log.push("    fault: debuggee SIGKILLed from outside".into());
@@ -354,7 +384,8 @@ pub fn run(spec: &WorkerSpec) -> WorkerResult {
             POISONED.store(true, std::sync::atomic::Ordering::SeqCst);
             bump(&mut stats, "c08.fault_memory_poisoned");
         }
-        if !killed && k % 7 == 0 {
+        if !killed && k % 5 != 4 {
+            // most commands look at the frame of `arena` (frame 1), where the values live
             let _ = dbg.set_frame_into_focus(1);
         }
         let line = gen_line(&mut tape);
